@@ -70,11 +70,11 @@ PROPS["C07"] = {
     "witness_always": ["stdlib_expansion"],
     "witness_bound": {"stdlib_expansion": "1232 generated conditional trees of depth <= 3 (\\iftrue/\\iffalse/\\ifnum/\\ifodd incl. negative operands/\\ifcase -1..3, \\let aliases, unbalanced braces in skipped text) against a tree evaluator; every token string of length <= 6 over {\\expandafter, three macros, a letter, a macro with a DELIMITED parameter (which grabs tokens unexpanded, so the moment of each expansion shows in the output)} (42856 strings without runaway arguments) expanded by BOTH \\expandafter implementations against a transcription of TeX's expand-once rule"},
     "level": "proof",
-    "verus": ["stdlib_cond", "stdlib_expandafter"],
+    "verus": ["stdlib_cond", "stdlib_expandafter", "texlang_parse_int"],
     "kani": [],
     "unverified_callers": [
         "Condition::build_if_command closure (evaluate -> true_case/false_case dispatch) and the VM expansion loop",
-        "Parsable for i32 / (i32, Ordering, i32): assumed to return an arbitrary value and only consume tokens",
+        "Parsable for (i32, Ordering, i32) (a macro-generated tuple impl) is assumed to return an arbitrary triple; its three components are proved separately in unit texlang_parse_int (i32 == parse_integer, Ordering == TeX 503: < = > of category 12 after skipping blanks, else Missing = inserted)",
         "expansion.rs: both \\expandafter implementations are PROVED to satisfy the same postcondition (TeX's rule) over a trusted model of ExpandedStream::expand_once (one step on the first pending token; on an \\expandafter token that step is the rule itself - the induction hypothesis); \\noexpand and \\relax are NOT decided",
         "command tags preserved by \\let (assumed: tag_of reads the tag of the aliased command)",
     ],
